@@ -61,7 +61,40 @@ theorem handleDelete_eq (safe : Bool) (e c : Option Hash) :
   · rfl
   · cases h : casCommit c e <;> simp [Id.run, h, pure]
 
-/-! ## the conflict-copy name loop -/
+/-! ## `handle_get` -/
+
+theorem get_loop (tag : Copia.HubGet.GCall) (l : List Chunk) (calls : List Copia.HubGet.GCall) (acc : List Chunk) :
+    (forIn (m := Id) l (calls, acc) fun chunk __s => ForInStep.yield (__s.fst ++ [tag], __s.snd ++ [chunk])) =
+      (calls ++ l.map (fun _ => tag), acc ++ l) := by
+  induction l generalizing calls acc with
+  | nil => simp [pure]
+  | cons x xs ih =>
+    simp only [List.forIn_cons, bind, List.map_cons]
+    rw [ih]
+    simp only [List.append_assoc, List.singleton_append]
+
+/-- `handle_get`, translated, in closed form -/
+theorem handleGet_eq (hashOf : List Chunk → Hash) (safe : Bool) (file : Option (List Chunk)) (is_file : Bool) :
+    Copia.Gen.Loops.handleGet hashOf safe file is_file =
+      if !safe then ([], Reply.error "bad path")
+      else match file with
+        | none => ([.open], Reply.error "not found")
+        | some f =>
+          if !is_file then ([.open, .stat], Reply.error "not found")
+          else ([.open, .stat, .hashStart] ++ f.map (fun _ => Copia.HubGet.GCall.hashRead) ++ [.hashEof] ++
+                  (f.take f.length).map (fun _ => Copia.HubGet.GCall.sendRead) ++ [.sendDone],
+                Reply.content f.length (hashOf f) (f.take f.length)) := by
+  unfold Copia.Gen.Loops.handleGet
+  cases safe
+  · rfl
+  · cases file with
+    | none => rfl
+    | some f =>
+      cases is_file
+      · rfl
+      · simp only [Id.run, bind, pure, Bool.not_true, Bool.false_eq_true, if_false]
+        simp only [get_loop, List.nil_append, List.append_assoc, List.singleton_append, List.cons_append]
+
 
 /-- the `while` of the conflict-copy name as a function: (name reached, index, whether the loop ended by its own test) -/
 def ccLoop (cond : List Char → Bool) (name : Nat → List Char) : Nat → Nat → (List Char × Nat × Bool)
